@@ -149,7 +149,7 @@ class Ctx:
                         self.inconclusive.append("case %s of %s exceeded the watchdog twice" % (cur, sub))
                     elif again is not None:
                         self.violation(again[0], again[1], replay)
-                elif rc in (97, 98, 99):
+                elif rc in (97, 98, 99) or re.search(r"/verif/harness/[\w.]+:\d+:\d+: runtime error", se or ""):
                     self.inconclusive.append("harness failure rc=%d in %s case %s: %s" % (rc, sub, cur, se[-300:]))
                 else:
                     self.violation(crash_signature(rc, se), "harness %s %s died (rc=%s) in case %s: %s" %
@@ -192,6 +192,11 @@ class Ctx:
                         self.samples.append(json.loads(line[2:]))
                     except Exception:
                         pass
+            elif line.startswith("I "):
+                try:
+                    self.inconclusive.append("%s case %s: %s" % (sub, json.loads(line[2:]).get("case"), json.loads(line[2:]).get("msg")))
+                except Exception:
+                    self.inconclusive.append(line[:200])
             elif line.startswith("H "):
                 self.hashes.update(line[2:].split())
 
@@ -237,15 +242,16 @@ class Ctx:
         evd = {"property_id": self.pid, "tier": self.tier, "seed": int(self.seed), "level": self.level,
                "coverage": cov, "assumptions": self.assumptions, "wall_s": round(time.time() - self.t0, 2),
                "violations": len(sigs)}
-        os.makedirs(os.path.join(VERIF, "evidence"), exist_ok=True)
-        with open(os.path.join(VERIF, "evidence", self.pid + ".json"), "w") as f:
+        evdir = os.environ.get("VERIF_EVIDENCE_DIR", os.path.join(VERIF, "evidence"))
+        os.makedirs(evdir, exist_ok=True)
+        with open(os.path.join(evdir, self.pid + ".json"), "w") as f:
             json.dump(evd, f, indent=1, sort_keys=False)
             f.write("\n")
         for s, (k, c) in known.items():
             print("KNOWN-FINDING: property=%s %s (seen %d times)" % (self.pid, k.get("what", s), c))
         rc = 0
         if sigs:
-            rdir = os.path.join(VERIF, "replays", self.pid)
+            rdir = os.path.join(os.environ.get("VERIF_REPLAY_DIR", os.path.join(VERIF, "replays")), self.pid)
             os.makedirs(rdir, exist_ok=True)
             for s, vs in sorted(sigs.items()):
                 v = vs[0]
